@@ -49,6 +49,9 @@ CHECKS = {
     'C17': dict(tech=SYMX, ref='3/C17',
                 text='Each documented UnitConverter method is executed with a symbolic magnitude (pint multiplies it through): no exception; units as documented; the solver proves magnitude == a*x+b for all x (a*x*d^3 for toVolumeFraction with symbolic diameter) with a,b read off the returned term, and a,b agree to 1e-9 with the textbook values computed from SI-2019 constants carried by the harness; arrays are converted elementwise. Configurations: dc in {1,1.5,0.37} x {nm, angstrom}, ec in {2.48 kJ/mol, 1 kcal/mol, 4.1e-21 J}.',
                 note='Unit strings are concrete (pint parser). pint itself is executed, not modelled.'),
+    'C16': dict(tech=SYMX, ref='3/C16',
+                text='(missing) which specification items are supplied is a vector of symbolic booleans (rank 1: all 64 masks) / an enumerated list (rank 2: all subsets of <=2 of 14 items, <=3 thorough): check(), createPRISM() and solve() raise ValueError, from inside check(), with no PRISM object and no root-finder call, iff something is missing. (wiring) with every shipped potential/closure class and Gaussian/SingleSite/NoIntra/InterMolecular/FromArray omegas and all parameters symbolic the solver proves closure.potential = u_spec(r)/kT, closure.sigma=(da+db)/2, potential.sigma explicit-or-mean, omega = omega_spec(k)*rho_site, per-pair objects distinct (also for list-assigned tables and kT assigned later). (isolation) the System (identity and value of every table entry, potential sigmas, domain arrays) is unchanged by createPRISM, cost and solve(stub); no array is shared; after editing every System field the PRISM object\'s wiring and cost(x) are unchanged. (sweep) a System edited field by field to theta2 gives the same wiring and the same cost(x) as a fresh System(theta2).',
+                note='Root finder stubbed (C01 contract); equal wiring + equal x gives equal results assumes scipy is deterministic.'),
 }
 
 NOT_YET = {}
